@@ -45,7 +45,7 @@ TInit ==
   /\ TLCSet(1, {})
 
 MXOf(r) == [stls |-> r.stls, cert |-> r.cert, stsMatch |-> r.stsMatch, tlsa |-> r.tlsa, slow |-> FALSE,
-            cn |-> "no", tlsaC |-> "insecure"]
+            cn |-> "no", tlsaC |-> "insecure", quit |-> "bye"]
 
 TReset ==
   /\ IsEv("Cfg")
@@ -59,7 +59,7 @@ TReset ==
   /\ l' = l + 1 /\ drift' = FALSE /\ driftAt' = 0 /\ tno' = Ev.t
 
 MsgOf(e) == [reqtls |-> e.reqtls, tlsno |-> e.tlsno, quar |-> e.quar,
-             mailfail |-> e.mailfail, qlate |-> e.qlate, na |-> FALSE]
+             mailfail |-> e.mailfail, qlate |-> e.qlate, na |-> FALSE, pre |-> FALSE]
 
 (* connect() as a whole: the outcome of the Connect steps of Remote.tla for MX i *)
 HConnect(i, t) ==
